@@ -181,10 +181,27 @@ package dmap
 //@   modifies e.fragment.storage.has, e.fragment.storage.key, e.fragment.storage.val, e.fragment.storage.ttl, e.fragment.storage.ts,
 //@            e.fragment.storage.la, e.fragment.storage.count, e.fragment.storage.inuse, EntriesTotal.counter
 
+// Quorum replication (C05): the write is acknowledged iff the copies stored on backup owners (net_acks counts the
+// replica commands delivered and answered without error) plus the local copy reach WriteQuorum; it fails with
+// ErrWriteQuorum otherwise, and an unreachable backup owner never fails it by itself.
 //@ func (dm *DMap) syncPutOnCluster(e *env, nt storage.Entry) error
-//@   props C09
-//@   trusted
-//@   modifies e.fragment.storage.has, e.fragment.storage.key, e.fragment.storage.val, e.fragment.storage.ttl, e.fragment.storage.ts,
+//@   props C05 C09
+//@   flag termination
+//@   flag wired 3
+//@   requires #env: e != nil && e.putConfig != nil && e.fragment != nil && e.fragment.storage != nil && nt != nil
+//@   requires #parts: dm.s.parts() && dm.s.primary.count > 0 && dm.s.backup.count > 0
+//@   requires #encodable: len(nt.value) < 4294967296
+//@   ensures #err_kind [C05]: result == nil || result == ErrWriteQuorum || result == ErrKeyTooLarge
+//@   ensures #key_too_large [C17]: (result == ErrKeyTooLarge) == (len(nt.key) >= 256)
+//@   ensures #nothing_shipped_truncated [C17]: len(nt.key) >= 256 ==> net_acks == old(net_acks) && e.fragment.storage.has == old(e.fragment.storage.has) &&
+//@                e.fragment.storage.val == old(e.fragment.storage.val)
+//@   ensures #ack_iff_quorum [C05] internal: (result == nil) == (net_acks - old(net_acks) + ite(err == nil, 1, 0) >= dm.s.config.WriteQuorum)
+//@   ensures #counted [C05] internal: successful == net_acks - old(net_acks) + ite(err == nil, 1, 0) && net_acks - old(net_acks) <= len(owners)
+//@   ensures #local_copy [C05]: (e.fragment.storage.has[e.hkey] || !old(e.fragment.storage.has)[e.hkey])
+//@   loop 0 invariant #acks: successful == net_acks - old(net_acks) && 0 <= successful && successful <= rangeindex + 1 && rangeindex < len(owners)
+//@   loop 0 invariant #temporaries: onlyfresh()
+//@   loop 0 invariant #env_kept: e.fragment == old(e.fragment) && e.fragment.storage == old(e.fragment.storage) && e.putConfig == old(e.putConfig) && e.hkey == old(e.hkey)
+//@   modifies net_acks, e.fragment.storage.has, e.fragment.storage.key, e.fragment.storage.val, e.fragment.storage.ttl, e.fragment.storage.ts,
 //@            e.fragment.storage.la, e.fragment.storage.count, e.fragment.storage.inuse, EntriesTotal.counter
 
 // A write on the partition owner (C09, single-copy path stated exactly; with replicas the same entry is
@@ -197,6 +214,7 @@ package dmap
 //@   requires #env: e != nil && e.putConfig != nil && dm.s != nil && dm.s.config != nil && dm.s.parts() && dm.s.primary.count > 0 && dm.s.backup.count > 0
 //@   requires #durations: 0 <= e.putConfig.EX && e.putConfig.EX < 4611686018427387904 && 0 <= e.putConfig.PX && e.putConfig.PX < 4611686018427387904 &&
 //@                0 <= e.putConfig.EXAT && 0 <= e.putConfig.PXAT && 0 <= e.timeout && e.timeout < 4611686018427387904
+//@   requires #value_size: len(e.value) < 4294967296
 //@   requires #default_ttl_range: dm.config != nil ==> 0 <= dm.config.ttlDuration && dm.config.ttlDuration < 4611686018427387904
 //@   ensures #timeout_default [C09]: e.timeout == ite(dm.config != nil && dm.config.ttlDuration != 0 && old(e.timeout) == 0 && result != ErrKeyFound && result != ErrKeyNotFound, dm.config.ttlDuration, old(e.timeout)) ||
 //@                result != nil
@@ -225,7 +243,7 @@ package dmap
 //@                (!pre(e.fragment.storage.has)[e.hkey] || deadAt(pre(e.fragment.storage.ttl)[e.hkey], old(now()))) ==>
 //@                result != nil && e.fragment.storage.has == pre(e.fragment.storage.has) && e.fragment.storage.val == pre(e.fragment.storage.val) &&
 //@                e.fragment.storage.ttl == pre(e.fragment.storage.ttl)
-//@   modifies e.fragment, e.timeout, EvictedTotal.counter, EntriesTotal.counter, every(e.fragment.storage.has), every(e.fragment.storage.key),
+//@   modifies net_acks, e.fragment, e.timeout, EvictedTotal.counter, EntriesTotal.counter, every(e.fragment.storage.has), every(e.fragment.storage.key),
 //@            every(e.fragment.storage.val), every(e.fragment.storage.ttl), every(e.fragment.storage.ts), every(e.fragment.storage.la),
 //@            every(e.fragment.storage.count), every(e.fragment.storage.inuse)
 
@@ -338,7 +356,7 @@ package dmap
 //@   props C15
 //@   trusted
 //@   flag clock
-//@   modifies e.hkey, e.fragment, e.timeout, EvictedTotal.counter, EntriesTotal.counter, every(e.fragment.storage.has), every(e.fragment.storage.key),
+//@   modifies net_acks, e.hkey, e.fragment, e.timeout, EvictedTotal.counter, EntriesTotal.counter, every(e.fragment.storage.has), every(e.fragment.storage.key),
 //@            every(e.fragment.storage.val), every(e.fragment.storage.ttl), every(e.fragment.storage.ts), every(e.fragment.storage.la),
 //@            every(e.fragment.storage.count), every(e.fragment.storage.inuse)
 
